@@ -296,11 +296,21 @@ impl NasNum {
         let (ip, fp) = digits.split_at(digits.len() - scale);
         let lead = if variant > 0 { "0".repeat(mix.below(3) as usize) } else { String::new() };
         let mut s = String::new();
-        if self.neg {
+        // zero has two signs: the other spellings of a zero choose theirs freely
+        let zero = digits.bytes().all(|c| c == b'0');
+        let show_neg = if zero && variant > 0 { mix.chance(1, 2) } else { self.neg };
+        if show_neg {
             s.push('-');
+        } else if variant > 0 && mix.chance(1, 5) {
+            // an explicit plus sign
+            s.push('+');
         }
-        s.push_str(&lead);
-        s.push_str(ip);
+        // `.5` for `0.5`: no integer part at all (one spelling in five, when there is a fraction)
+        let bare_fraction = variant > 0 && !fp.is_empty() && ip.bytes().all(|c| c == b'0') && mix.chance(1, 5);
+        if !bare_fraction {
+            s.push_str(&lead);
+            s.push_str(ip);
+        }
         if !fp.is_empty() {
             s.push('.');
             s.push_str(fp);
@@ -326,7 +336,7 @@ pub fn arb_nas() -> BoxedStrategy<NasNum> {
         1 => "9{1,40}",
     ];
     (any::<bool>(), digits, prop_oneof![3 => Just(0u32), 3 => 1u32..8, 2 => 8u32..=40], prop_oneof![4 => Just(0i32), 2 => -10i32..10, 2 => -100i32..=100], any::<u64>())
-        .prop_map(|(neg, digits, scale, exp, seed)| NasNum { neg: neg && digits != "0", digits, scale, exp, seed })
+        .prop_map(|(neg, digits, scale, exp, seed)| NasNum { neg, digits, scale, exp, seed })
         .boxed()
 }
 
@@ -496,7 +506,7 @@ impl Check for C19Nas {
 }
 
 pub fn run_all(ctx: &mut Ctx) {
-    ctx.rule = "(integers) 1..7 integers of [-2^63, 2^64) (boundaries, 2^53+-k, 2^k+-k, 10^19 neighbourhood, random 64-bit) x one of 49 non-arithmetic routes (15 pipeline routes: plain in 3 styles, select, filter on equality with the same literal, sort asc/desc, unique, group-by, merge, split-by, text, csv, skip/take; 34 function routes such as get take sub push values entries sort map first last reverese stringify parse default if pipe set define fold zip put ...): the digit strings found in stdout must be exactly the input's (as an ordered list, or as a multiset/set where the route reorders or deduplicates). (nas) operands of up to 60 digits, scale <= 40, exponent <= +-100, each operation run with three different spellings of every operand (leading/trailing zeros, zeros moved between mantissa and exponent, e/E, +): the result string parsed as a decimal must equal exact big-integer arithmetic for + - * abs normalise, the six comparisons must agree with the exact order, and normalise must give the same string for all spellings. non-trivial = an integer of >= 16 digits / an operand of >= 20 digits or operands of different scales".into();
+    ctx.rule = "(integers) 1..7 integers of [-2^63, 2^64) (boundaries, 2^53+-k, 2^k+-k, 10^19 neighbourhood, random 64-bit) x one of 49 non-arithmetic routes (15 pipeline routes: plain in 3 styles, select, filter on equality with the same literal, sort asc/desc, unique, group-by, merge, split-by, text, csv, skip/take; 34 function routes such as get take sub push values entries sort map first last reverese stringify parse default if pipe set define fold zip put ...): the digit strings found in stdout must be exactly the input's (as an ordered list, or as a multiset/set where the route reorders or deduplicates). (nas) operands of up to 60 digits, scale <= 40, exponent <= +-100, each operation run with three different spellings of every operand (leading/trailing zeros, zeros moved between mantissa and exponent, e/E, an explicit + sign on the number or the exponent, a bare fraction such as .5, negative zero): the result string parsed as a decimal must equal exact big-integer arithmetic for + - * abs normalise, the six comparisons must agree with the exact order, and normalise must give the same string for all spellings. non-trivial = an integer of >= 16 digits / an operand of >= 20 digits or operands of different scales".into();
     ctx.assumptions = vec!["only digit runs are compared on the integer routes (inputs contain no other digits)".into(), "exact arithmetic by num-bigint in the harness".into()];
     C19Ints.run(ctx);
     C19Nas.run(ctx);
